@@ -1,6 +1,7 @@
 """C17 — host data converts to CEL values without loss of structure (method tables + panic ledger)."""
 import json, os, re
 from . import facts as F
+from .zone import zone_conversions
 from . import panics as P
 
 LEVEL = 'other'
@@ -91,6 +92,22 @@ def run(fx, rep):
     rep.rule('R2', 'KeySerializer table: accepted key kinds, everything else InvalidKey')
     rep.rule('R3', 'no unaudited panic edge in ser.rs')
     rep.rule('R4', 'time wrappers and time serializer agree on marker names and fields')
+    rep.rule('R5', 'no zone conversion in ser.rs: a Timestamp wrapper keeps the offset of the host value')
+    if 'chrono' in fx.features('cel_interpreter'):
+        nz = 0
+        for zb in fx.bodies.values():
+            if zb.crate == 'cel_interpreter' and zb.raw['kind'] != 'Promoted' and not zb.is_derived() and zb.loc().startswith('interpreter/src/ser.rs'):
+                nz += zone_conversions(zb, rep, 'R5')
+        rep.check(nz >= 100, 'R5', 'call-sites-scanned', 'interpreter/src/ser.rs', '%d call sites scanned, none converts a zone' % nz, 'only %d call sites scanned (anchor lost)' % nz)
+        # the time serializer parses the payload into the type Value::Timestamp holds
+        tsb = [b for b in fx.bodies.values() if re.search(r'TimeSerializer as serde::Serializer>::serialize_str$', b.path)]
+        targets = set()
+        for b in tsb:
+            for bi, t in b.calls():
+                if F.norm_callee(t) == 'core::str::<impl str>::parse':
+                    targets.add(str(t['callee']['args'][-1]))
+        rep.check(any('chrono::DateTime<chrono::FixedOffset>' in x for x in targets) and all('chrono::DateTime<chrono::FixedOffset>' in x for x in targets), 'R5', 'timestamp-parsed-as-fixed-offset',
+                  tsb[0].loc() if tsb else '-', 'TimeSerializer::serialize_str parses into DateTime<FixedOffset>', 'TimeSerializer::serialize_str parses the timestamp payload into %s, not DateTime<FixedOffset>' % sorted(targets))
     ref = json.load(open(os.path.join(HERE, 'tables/reference/serde_table.json')))
     for self_ty, rule in (('Serializer', 'R1'), ('KeySerializer', 'R2')):
         ms = impl_methods(fx, SER + self_ty, 'serde::Serializer')
